@@ -566,13 +566,17 @@ def oracle(cfg, structs, in_lines, out_lines, cleaner, path="content"):
                 needle = t
             scope = kept.index(li) if (aligned and li in kept) else (None if not aligned else -1)
             occs.append({"li": li, "ei": ei, "st": st, "kind": kind, "t": t, "needle": needle, "before": before,
-                         "after": after, "scope": scope, "why": _explainable(st, ei, kind, before, after)})
+                         "after": after, "scope": scope, "why": _explainable(st, ei, kind, before, after),
+                         "demanded": _demanded(kind, before, after)})
 
     def scope_text(scope):
         return masked if scope is None else ("" if scope == -1 else masked_lines[scope])
 
-    def count(needle, scope):
+    def count(needle, scope, kind=None):
         txt = scope_text(scope)
+        if kind == "ip":
+            # the address itself, not a stretch of a longer dotted number (10.1.1.1 inside 10.1.1.10 / 110.1.1.1)
+            return len(re.findall(r"(?<![0-9.])" + re.escape(needle) + r"(?![0-9])", txt))
         n = txt.count(needle)
         if needle == SHORT and cfg["fqdn"] != SHORT:
             n -= txt.count(FQDN)                # the bare name inside a surviving FQDN belongs to the FQDN token
@@ -584,10 +588,12 @@ def oracle(cfg, structs, in_lines, out_lines, cleaner, path="content"):
         if o["needle"] is not None and o["kind"] in ("ip", "host", "mac", "pw"):
             groups.setdefault((o["scope"], o["needle"]), []).append(o)
     for (scope, needle), group in groups.items():
-        n = count(needle, scope)
+        n = count(needle, scope, group[0]["kind"])
         if n <= 0:
             continue
-        order = [o for o in group if o["why"]] + [o for o in group if not o["why"]]
+        # first the occurrences that may survive (not demanded where they stand), then the explainable, then the rest
+        order = ([o for o in group if not o["demanded"]] + [o for o in group if o["demanded"] and o["why"]]
+                 + [o for o in group if o["demanded"] and not o["why"]])
         for o in order[:max(n, 0)]:
             survivors.add((o["li"], o["ei"]))
 
@@ -599,7 +605,7 @@ def oracle(cfg, structs, in_lines, out_lines, cleaner, path="content"):
             statuses.append(kind + "D")
         else:
             statuses.append(kind + ("K" if (o["needle"] or t) in raw else "M"))
-        if not _demanded(kind, before, after):
+        if not o["demanded"]:
             continue
         feats = {"kind": kind}
         isolated = before in INERT and after in INERT
@@ -647,7 +653,7 @@ def oracle(cfg, structs, in_lines, out_lines, cleaner, path="content"):
         for o in occs:
             k, n = o["kind"], o["needle"]
             if ((k == "ip" and ip_on) or (k == "host" and hn_on) or (k == "mac" and mac_on)) and n and n not in reported \
-                    and count(n, None) > 0:
+                    and count(n, None, k) > 0:
                 reported.add(n)
                 v.append(("obfuscation:survives-in-foreign-line", "%s absent" % n, raw, {"kind": k}))
     return v, statuses
